@@ -3,13 +3,14 @@
 TLA+ predicate over st / l.   usage: tracedbg.py <replay dir> '<predicate>' [key ...]"""
 import json, os, re, shutil, sys
 sys.path.insert(0, os.path.join(os.path.dirname(os.path.abspath(__file__)), "..", "lib"))
+sys.path.insert(0, os.path.dirname(os.path.abspath(__file__)))
 import traceprep, tlc
 
 d, pred = sys.argv[1], sys.argv[2]
 keys = sys.argv[3:] or ['rs |->', 'pcS |->', 'hm |->', 'pcV |->', 'pcI |->', 'rdone', 'procs |->', 'pcW', 'iv |->']
 sc = json.load(open(d + '/scenario.json'))
 evs = traceprep.load_ndjson(d + '/trace.ndjson')
-proj = traceprep.project(evs, sc)
+proj = traceprep.project(evs, sc, bound=None if os.environ.get('TEL') else {'Tel'})
 scratch = tlc.make_scratch('dbg-')
 traceprep.write_ndjson(scratch + '/trace.ndjson', proj)
 for f in os.listdir(tlc.SPEC):
@@ -21,6 +22,10 @@ spec = open(scratch + '/Trace_Rapid.tla').read().replace('NotReached == l < HWM'
 open(scratch + '/Trace_Rapid.tla', 'w').write(spec)
 r = tlc.run_tlc('Trace_Rapid', scratch + '/dbg.cfg', workers=1, timeout=180, scratch=scratch, dfs=True, spec_dir=scratch)
 print("violation:", r.violation, "error:", r.error, "hw:", re.findall(r'"hw", (\d+)', r.out)[-1:])
+import cex
+if os.environ.get('DIFF'):
+    for n, act, dd in cex.steps(r):
+        print("%s %s  %s" % (n, act, "  ".join("%s=%s" % (k, v) for k, v in sorted(dd.items()) if not k.startswith('st.tel')))[:int(os.environ.get('W', '300'))])
 states = re.split(r'\nState \d+: ', r.out)
 print("behaviour length", len(states) - 1)
 last = states[-1]
